@@ -422,9 +422,22 @@ impl Catalog {
                         let mut tuple = Tuple::from_slice_unchecked(bytes)?;
                         let xmin = tuple.xmin();
 
-                        let freed = if snapshot.is_transaction_aborted(xmin) || tuple.is_deleted() {
+                        // A delete only counts if its transaction did not roll back.
+                        let deleter_aborted = tuple
+                            .xmax()
+                            .is_some_and(|xmax| snapshot.is_transaction_aborted(xmax));
+
+                        let freed = if snapshot.is_transaction_aborted(xmin)
+                            || (tuple.is_deleted() && !deleter_aborted)
+                        {
                             let freed = tuple.full_data().len();
                             tuples_to_remove.push(tuple);
+                            freed
+                        } else if deleter_aborted {
+                            // The row stays; drop the stale mark before the aborted id is forgotten.
+                            tuple.clear_delete();
+                            let freed = tuple.vaccum_with(oldest_active_xid, schema)?;
+                            tuples_to_vaccum.push(tuple);
                             freed
                         } else {
                             let freed = tuple.vaccum_with(oldest_active_xid, schema)?;
